@@ -607,6 +607,13 @@ theorem kept_imports_are_hoisted (c : List Rule) :
       hoist c = x :: (rest.filter isImp ++ rest.filter (fun r => !isImp r))) ∨
     hoist c = c.filter isImp ++ c.filter (fun r => !isImp r) := hoist_cases c
 
+/-- the region of C19-kept-import-hoisted, exactly: hoisting leaves the groups as they are if and only if the kept
+@imports already stand in front of everything else, behind at most one leading comment (`hoisted`, decidable) — so
+the order of the flattened sheet differs from cascade order exactly when some rule other than one leading comment
+precedes a kept @import in the groups -/
+theorem hoisting_is_identity_iff_imports_first (c : List Rule) : hoist c = c ↔ hoisted c = true :=
+  hoist_eq_self_iff c
+
 /-- without a kept @import nothing is moved -/
 theorem nothing_hoisted_without_kept_imports (c : List Rule) (h : ∀ r ∈ c, isImp r = false) : hoist c = c :=
   hoist_noImp c h
